@@ -92,13 +92,13 @@ def run_program(spec, steps, out, label="program", max_viol=4):
                     ctx.set(incat, exprsim.pack(ienv, st[1]))
                 ref.set_inputs(st[1])
             elif st[0] == "clk":
-                ctx.set(b.cd.clk, 1)
-                ctx.set(b.cd.clk, 0)
+                ctx.set(b.cd.clk, b.act)
+                ctx.set(b.cd.clk, b.idle)
                 ref.clock_edge(0)
             else:
                 ctx.set(b.cd.rst, 1)
-                ctx.set(b.cd.clk, 1)
-                ctx.set(b.cd.clk, 0)
+                ctx.set(b.cd.clk, b.act)
+                ctx.set(b.cd.clk, b.idle)
                 ctx.set(b.cd.rst, 0)
                 ref.clock_edge(1)
             if not compare(n, st):
@@ -173,11 +173,11 @@ def run_design(design, steps, out, label="scattered"):
                 rst = 1 if st[0] == "rst" else 0
                 if rst:
                     ctx.set(bd.cd.rst, 1)
-                ctx.set(bd.cd.clk, 1)
+                ctx.set(bd.cd.clk, bd.act)
                 ref.clock_edge(rst)
                 if not compare(n):
                     return
-                ctx.set(bd.cd.clk, 0)
+                ctx.set(bd.cd.clk, bd.idle)
                 if rst:
                     ctx.set(bd.cd.rst, 0)
             if not compare(n):
@@ -257,6 +257,9 @@ def run_shard(spec):
         for n in range(spec["programs"]):
             g = S.Gen(rng, max_nest=rng.randint(1, spec["nest"]), max_stmts=rng.randint(3, spec["stmts"]))
             sp = g.spec()
+            if rng.random() < 0.25:
+                sp.d["negedge"] = True          # the sync domain is clocked on the falling edge
+                out["hist"]["negedge-sync-domain"] = out["hist"].get("negedge-sync-domain", 0) + 1
             steps = make_stimulus(rng, sp, spec["steps"])
             run_program(sp, steps, out)
             out["extra"]["programs"] += 1
